@@ -166,7 +166,8 @@ mod verif_nx_pipeline {
                      "function F(A: Integer): Integer; begin Result := A; end;", "// c\n", "type R = record case Byte of 0: (A: Byte); end;"];
         let stmts = ["", "A := 1;", "if A then B else C;", "for I := 0 to 1 do begin end;", "case A of 1: B; else C; end;", "try A; finally B; end;",
                      "{$ifdef X} A; {$else} B; {$endif}", "with A do B;", "repeat A until B;", "A := procedure begin B; end;",
-                     "Foo(Bar, Baz + 1, 'lit', Qux.Quux(1, 2, 3), AVeryLongIdentifierName, AnotherVeryLongIdentifierName);"];
+                     "Foo(Bar, Baz + 1, 'lit', Qux.Quux(1, 2, 3), AVeryLongIdentifierName, AnotherVeryLongIdentifierName);",
+                     "L := TList<Integer>.Create; if (A < B) and (C > D) then E := F<G>(H);", "P^.Q := @R; S := -T + (-U) - V * W[X]^;"];
         for d1 in decls { for d2 in decls { for s1 in stmts { for s2 in stmts {
             f(&format!("unit U;\ninterface\n{d1}\nimplementation\n{d2}\ninitialization\n{s1}\n{s2}\nend."));
             f(&format!("program P;\n{d1}\n{d2}\nbegin\n{s1} {s2}\nend."));
@@ -227,6 +228,15 @@ mod verif_nx_pipeline {
                     };
                     assert!(same_kind && nb(x.get_content()) == nb(y.get_content()), "OB pipeline/rescans_to_same_tokens: scanning the output yields the same token kinds and text\n input={:?}\n output={:?}\n token in={:?} out={:?}", p, out, x.get_content(), y.get_content());
                 }
+            }
+            // C08 / C06: runs of blank lines in the input collapse to one blank line and change nothing else
+            {
+                let p2 = p.replace('\n', "\n\n");
+                let p4 = p.replace('\n', "\n\n\n\n");
+                let (o2, _) = fmt(lf, &p2, Vec::new());
+                let (o4, _) = fmt(lf, &p4, Vec::new());
+                assert!(!o4.contains("\n\n\n") && !o4.starts_with('\n'), "OB pipeline/one_blank_line_at_most: never two consecutive blank lines\n input={:?} output={:?}", p4, o4);
+                assert!(o2 == o4, "OB pipeline/blank_line_groups_only: only the grouping by blank lines matters, not their number\n input={:?}\n two={:?}\n four={:?}", p, o2, o4);
             }
             // C11: the limit is a limit, not a style switch
             {
